@@ -185,7 +185,7 @@ def run_channel(item):
         for T_ in (np.uint64, np.int64):
             for s in edges:
                 for e in edges[::2]:
-                    if e < s or (s, e) not in cache or ntyped > 1200:
+                    if e < s or (s, e) not in cache or ntyped > 1200 or (T_ is np.int64 and e >= 2**63):
                         continue
                     ntyped += 1
                     try:
